@@ -83,6 +83,16 @@ from math import inf, nan
 spec = importlib.util.spec_from_file_location('harness', %(path)r)
 mod = importlib.util.module_from_spec(spec); spec.loader.exec_module(mod)
 call = %(call)r
+# CrossHair explores the paths of one condition in one process; where the code under test keeps state at class or module
+# level the counterexample may depend on calls made on earlier paths.  A harness lists such histories in WARMUP; every call
+# in it is itself an instance of the property, so any False below is a violation in its own right.
+for w in getattr(mod, 'WARMUP', {}).get(call.split('(')[0], []):
+    try:
+        rw = eval(w, vars(mod), {})
+    except Exception as e:
+        print('history call', w, 'raises', repr(e)); sys.exit(1)
+    if not rw:
+        print('history call', w, 'returns', rw); sys.exit(1)
 print('replaying', call)
 try:
     r = eval(call, vars(mod), {'inf': inf, 'nan': nan, 'float': float})
